@@ -79,6 +79,49 @@ pub fn iso_representatives_sparse(n: usize, max_att: usize) -> Vec<Graph> {
     out.into_iter().map(|c| Graph::from_code(n, c)).collect()
 }
 
+/// One representative (minimal adjacency mask) per isomorphism class of the digraphs (loops allowed)
+/// with `n` <= 8 nodes and at most `max_att` arcs, by level-wise augmentation: every class with k+1
+/// arcs contains a graph obtained from a representative with k arcs by adding one arc.
+pub fn iso_classes_augment(n: usize, max_att: usize) -> Vec<Graph> {
+    use rayon::prelude::*;
+    assert!(n <= 8);
+    let perms = permutations(n);
+    let tables: Vec<Vec<u8>> = perms.iter().map(|p| (0..n * n).map(|b| (p[b / n] * n + p[b % n]) as u8).collect()).collect();
+    let canon = |m: u64| -> u64 {
+        tables
+            .iter()
+            .map(|t| {
+                let mut r = 0u64;
+                let mut x = m;
+                while x != 0 {
+                    let b = x.trailing_zeros() as usize;
+                    r |= 1u64 << t[b];
+                    x &= x - 1;
+                }
+                r
+            })
+            .min()
+            .unwrap()
+    };
+    let mut level: Vec<u64> = vec![0];
+    let mut all: Vec<u64> = vec![0];
+    for _ in 0..max_att.min(n * n) {
+        let next: std::collections::BTreeSet<u64> = level
+            .par_iter()
+            .flat_map_iter(|&m| (0..n * n).filter(move |b| m >> b & 1 == 0).map(move |b| m | 1u64 << b))
+            .map(|m| canon(m))
+            .collect();
+        level = next.into_iter().collect();
+        all.extend(level.iter().cloned());
+    }
+    all.into_iter()
+        .map(|m| {
+            let att: Vec<(usize, usize)> = (0..n * n).filter(|b| m >> b & 1 == 1).map(|b| (b / n, b % n)).collect();
+            Graph::new(n, &att)
+        })
+        .collect()
+}
+
 // ---------------------------------------------------------------------------------------------
 // Structured family S
 
@@ -176,6 +219,30 @@ pub fn threshold_family() -> Vec<(String, Graph)> {
         }
     }
     out
+}
+
+/// Dense extremes: complete digraphs. With loops on 16 arguments the product of the defender-set
+/// sizes of every argument is 16^16 = 2^64 exactly (the hybrid encoder's threshold test must stop
+/// multiplying long before); without loops it is 15^16 (overflows 64 bits to a non-zero value).
+pub fn dense_extremes() -> Vec<(String, Graph)> {
+    let k = |n: usize, loops: bool| -> Graph {
+        let att: Vec<(usize, usize)> = (0..n).flat_map(|i| (0..n).map(move |j| (i, j))).filter(|&(i, j)| loops || i != j).collect();
+        Graph::new(n, &att)
+    };
+    vec![("K16_loops".into(), k(16, true)), ("K16".into(), k(16, false)), ("K11_loops".into(), k(11, true))]
+}
+
+/// number of clauses the exponential complete-semantics encoder needs for the worst argument
+/// (product of the defender-set sizes), saturating
+pub fn exp_clause_bound(g: &Graph) -> u128 {
+    let mut indeg = vec![0u128; g.n];
+    for &(_, b) in &g.att {
+        indeg[b] += 1;
+    }
+    (0..g.n)
+        .map(|a| g.att.iter().filter(|&&(_, t)| t == a).fold(1u128, |p, &(b, _)| p.saturating_mul(indeg[b].max(1))))
+        .max()
+        .unwrap_or(1)
 }
 
 /// The structured family S (without the large funnel): (name, graph), all with n <= 14.
